@@ -378,51 +378,11 @@ fn c02_lookaround_capture_effects() {
     core::mem::forget(cr);
 }
 
-// C13-H3: a pattern character that cannot be narrowed to the input's element type means "this
-// instruction cannot match" - the pending alternative must still be tried (never "abort the attempt").
-fn char_arm_body<I: InputIndexer>(input: I, c: u32, fwd: bool) {
-    // [Alt -> 3, Char(c), Goal, Goal]: first alternative needs c, second is the empty match
-    let cr = prog(vec![Insn::Alt { secondary: 3 }, Insn::Char(c), Insn::Goal, Insn::Goal], 0, 0);
-    let mut ma = MatchAttempter::<I>::new(&cr, input.left_end());
-    let pos = input.left_end();
-    let r = if fwd {
-        ma.try_at_pos(input, 0, pos, Forward::new())
-    } else {
-        ma.try_at_pos(input, 0, pos, Backward::new())
-    };
-    assert!(r == Some(pos), "the second alternative (empty match) must be found");
-    assert!(ma.bts.len() == 1);
-    core::mem::forget(ma);
-    core::mem::forget(cr);
-}
-
-// @verif props=C13,C01 tier=quick timeout=2400 mem=12 unwind=4 bound="[Alt, Char(c), Goal | Goal] with any c > 0xFF on AsciiInput over 2 symbolic ASCII bytes, both directions" funcs="MatchAttempter<AsciiInput>::try_at_pos(Alt,Char),try_backtrack(SetPosition),ElementType::try_from"
-#[kani::proof]
-#[kani::unwind(4)]
-fn c13_char_arm_unrepresentable_ascii() {
-    let b: [u8; 2] = kani::any();
-    kani::assume(b[0] < 0x80 && b[1] < 0x80);
-    let text: &str = unsafe { core::str::from_utf8_unchecked(&b) };
-    let input = AsciiInput::new(text, false);
-    let c: u32 = kani::any();
-    kani::assume(c > 0xFF && c <= 0x10FFFF);
-    char_arm_body(input, c, kani::any());
-    kani::cover!(c == 0x17F, "long s");
-}
-
-// @verif props=C01,C06 tier=quick timeout=2400 mem=12 unwind=4 bound="[Alt, Char(c), Goal | Goal] with any surrogate c on Utf8Input over 2 symbolic ASCII bytes, both directions" funcs="MatchAttempter<Utf8Input>::try_at_pos(Alt,Char),try_backtrack(SetPosition)"
-#[kani::proof]
-#[kani::unwind(4)]
-fn c01_char_arm_surrogate_utf8() {
-    let b: [u8; 2] = kani::any();
-    kani::assume(b[0] < 0x80 && b[1] < 0x80);
-    let text: &str = unsafe { core::str::from_utf8_unchecked(&b) };
-    let input = Utf8Input::new(text, false);
-    let c: u32 = kani::any();
-    kani::assume(c >= 0xD800 && c <= 0xDFFF);
-    char_arm_body(input, c, kani::any());
-    kani::cover!(c == 0xDFFF, "last surrogate");
-}
+// (C13-H3, "a pattern character that cannot be narrowed to the input's element type means: this instruction
+// cannot match, the pending alternative must still be tried", was attempted here through try_at_pos on
+// [Alt, Char(c), Goal | Goal].  CBMC runs out of memory at 12 GB: the alternative is a choice point, after which
+// the interpreter's ip is symbolic (DESIGN 2.5 (a)).  The fact is decided instead by the SMT modes C01/C01n
+// (alt_lone_surrogate_or_a) and C13/C13n (alt_nonascii_literal_or_a) with their native confirmation.)
 
 // ------------------------------------------------------------------------------------------
 // one-character loops
